@@ -62,7 +62,8 @@ def check(tier, seed, replay=None):
         # models around every ExprGen tree (every operator over every pair of operand kinds, chains of equal
         # operators such as a -> b -> c): the tree as objective, as one side of a row, or as a logic assertion
         from . import doors
-        os_ = doors.operand_models(tier, seed, meta, assoc_all=True)
+        # (programs the static typing refuses are not texts of the language: C16 judges them, not C03)
+        os_ = [m for m in doors.operand_models(tier, seed, meta, assoc_all=True) if not m.get("illtyped")]
         for c in os_:
             c["may_reject"] = True
         cases = []
